@@ -51,6 +51,7 @@ class LayoutFold:
         self.samples = []
         self.pad = None
         self.pad_node = None
+        self.track = {}
 
     def flush_pad(self, node=None):
         """consecutive 0x40 bytes (possibly from several writes) are judged together"""
@@ -101,19 +102,17 @@ class LayoutFold:
                 self.seg(g, e.node)
         elif e.kind == 'loop-head':
             self.flush_pad()
-            var = self._suffix_var(e.data['gen'])
+            var = self._tracking_var(e.data['gen'], e.data['pre'])
             if var is None:
-                # no pending-data variable generalised: loop cannot consume data, or it was widened away
+                # no variable tracks the emission cursor: the loop cannot consume data, or it was widened away
                 for k, g in e.data['gen'].items():
-                    if isinstance(g, SeqV) and not g.is_lit() and any(isinstance(s, Opq) for s in g.segs):
+                    if isinstance(g, SeqV) and not g.is_lit() and any(isinstance(s_, Opq) for s_ in g.segs):
                         self.fails.append(soft('pending data variable was widened to an opaque value', e.node))
+                self.track[id(e.node)] = None
                 return
-            k, g = var
-            pre = e.data['pre'][k]
-            if isinstance(pre, SeqV) and len(pre.segs) == 1 and isinstance(pre.segs[0], Sl):
-                self.fails += need_eq0(st, pre.segs[0].lo - self.cursor,
-                                       'data pending at loop entry does not start where emission stopped', e.node)
-            self.cursor = g.segs[0].lo
+            k, glin = var
+            self.track[id(e.node)] = k
+            self.cursor = glin
             rk = ('attr', 'remaining_chars')
             gr = e.data['gen'].get(rk)
             if isinstance(gr, IntV):
@@ -130,13 +129,13 @@ class LayoutFold:
             self.head_fill[id(e.node)] = cf
         elif e.kind == 'loop-back':
             self.flush_pad()
-            var = self._suffix_var(e.data['gen'])
-            if var is None:
+            k = self.track.get(id(e.node))
+            if k is None:
                 return
-            k, g = var
-            post = e.data['post'][k]
-            if isinstance(post, SeqV) and len(post.segs) == 1 and isinstance(post.segs[0], Sl) and post.segs[0].src is self.src:
-                self.fails += need_eq0(st, post.segs[0].lo - self.cursor,
+            post = e.data['post'].get(k)
+            plin = self._lin_of(post)
+            if plin is not None:
+                self.fails += need_eq0(st, plin - self.cursor,
                                        'data pending after a loop iteration does not start where emission stopped '
                                        '(bytes dropped or duplicated by the loop body)', e.node)
             elif isinstance(post, SeqV) and not post.segs:
@@ -155,6 +154,31 @@ class LayoutFold:
             elif hf is not None:
                 self.fails += need_eq0(st, self.fill - hf, f'block fill is not restored by a loop iteration '
                                                            f'({st.canon(self.fill)} vs {hf} at loop head)', e.node)
+
+    def _lin_of(self, v):
+        """position tracked by a loop variable: an integer cursor, or the start of a suffix slice of the data"""
+        if isinstance(v, IntV):
+            return v.lin
+        if isinstance(v, SeqV) and len(v.segs) == 1 and isinstance(v.segs[0], Sl) and v.segs[0].src is self.src:
+            return v.segs[0].lo
+        return None
+
+    def _tracking_var(self, gen, pre):
+        """the generalised variable whose entry value equals the number of data bytes emitted so far"""
+        st = self.store
+        best = None
+        for k, g in gen.items():
+            if k[0] != 'local':
+                continue
+            gl = self._lin_of(g)
+            pl = self._lin_of(pre.get(k))
+            if gl is None:
+                continue
+            if pl is not None and st.decide_eq0(pl - self.cursor) is True:
+                if isinstance(g, SeqV):
+                    return k, gl
+                best = best or (k, gl)
+        return best
 
     def _suffix_var(self, gen):
         for k, g in gen.items():
